@@ -348,52 +348,65 @@ def rule_bundle(ctx, ent):
         ctx.undecided("C14.bundle", w, "upload entity", "not available from the abstract execution")
         return
     repo = ctx.repo
-    cls = ent[1].cls
-    k, init = repo.find_method(cls, "__init__")
-    ps = params_of(init)
-    # re-evaluate the constructor arguments symbolically from the AST of flush_keys
-    fn = repo.method(CTRL, "AxolotlControlLayer", "flush_keys")
-    P = params_of(fn)
-    signed, prekeys = P[0], P[1]
-    call = [c for c in ast.walk(fn) if isinstance(c, ast.Call) and unparse(c.func) == cls.name]
-    if len(call) != 1:
-        ctx.undecided("C14.bundle", w, fn, "constructor call of %s not found" % cls.name)
-        return
-    call = call[0]
-    args = {p: a for p, a in zip(ps, call.args)}
-    args.update({kw.arg: kw.value for kw in call.keywords})
-    locals_ = {n.targets[0].id: n.value for n in ast.walk(fn) if isinstance(n, ast.Assign) and isinstance(n.targets[0], ast.Name)}
+    # the entity was built by abstract execution of flush_keys(SIGNED, [A, B]) on a layer whose manager is opaque
+    # (rule_sent): where each of its fields comes from is read off the values themselves - which opaque inputs a value
+    # mentions and which accessor calls lie on the way - whatever helpers, loops or comprehensions computed it
+    def leaves(v, out=None):
+        out = set() if out is None else out
+        if isinstance(v, tuple) and v:
+            if v[0] == "ext":
+                if v[1].endswith("()"):
+                    for x in v[2]:          # the result of a call: built from its arguments
+                        leaves(x, out)
+                else:
+                    out.add(v[1])           # an input object (what was later put INTO it is not where the value comes from)
+            elif v[0] in ("fn",):
+                for x in v[2]:
+                    leaves(x, out)
+            elif v[0] == "list":
+                for x in v[1]:
+                    leaves(x, out)
+        return out
 
-    def src(e):
-        e = locals_.get(e.id, e) if isinstance(e, ast.Name) else e
-        return unparse(e)
-    ident = src(args.get(ps[0]))
-    ctx.check("C14.bundle", "self.manager.identity" in ident and "getPublicKey" in ident, w, "identity key: " + ident[:80], "the upload must carry the account's own identity public key", "identity <- manager.identity public key")
-    stup = args.get(ps[1])
-    stup = locals_.get(stup.id, stup) if isinstance(stup, ast.Name) else stup
-    ok3 = False
-    if isinstance(stup, ast.Tuple) and len(stup.elts) == 3:
-        t = [unparse(e) for e in stup.elts]
-        ok3 = ("%s.getId()" % signed) in t[0] and ("%s.getKeyPair()" % signed) in t[1] and "getPublicKey" in t[1] and ("%s.getSignature()" % signed) in t[2]
-    ctx.check("C14.bundle", ok3, w, "signed prekey triple: " + (unparse(stup)[:120] if stup is not None else "?"),
-              "id, public key and signature of the signed prekey must come from one and the same record (the signature would not verify otherwise)", "(id, key, signature) of one record")
-    reg = src(args.get(ps[4])) if len(ps) > 4 and ps[4] in args else ""
-    ctx.check("C14.bundle", "self.manager.registration_id" in reg, w, "registration id: " + reg[:60], "the upload must carry the account's registration id", "registration id <- manager")
-    # one-time keys: id -> public key of the same key
-    dv = args.get(ps[2])
-    dname = dv.id if isinstance(dv, ast.Name) else None
-    okd = False
-    for n in ast.walk(fn):
-        if isinstance(n, ast.For) and unparse(n.iter) == prekeys and isinstance(n.target, ast.Name):
-            x = n.target.id
-            body = "\n".join(unparse(s) for s in n.body)
-            kp = [s for s in n.body if isinstance(s, ast.Assign) and isinstance(s.targets[0], ast.Name) and unparse(s.value) == "%s.getKeyPair()" % x]
-            kpn = kp[0].targets[0].id if kp else None
-            for s in n.body:
-                if isinstance(s, ast.Assign) and isinstance(s.targets[0], ast.Subscript) and unparse(s.targets[0].value) == dname:
-                    import re
-                    okd = bool(re.search(r"(?<![\w.])%s\.getId\(\)" % re.escape(x), unparse(s.targets[0].slice))) and ((kpn and ("%s.getPublicKey()" % kpn) in unparse(s.value)) or ("%s.getKeyPair().getPublicKey()" % x) in unparse(s.value))
-    ctx.check("C14.bundle", okd, w, "one-time keys map id -> key", "every offered id must map to the public key of the same prekey", "id -> public key of the same key")
+    def calls(v, out=None):
+        out = set() if out is None else out
+        if isinstance(v, tuple) and v:
+            if v[0] == "fn" or (v[0] == "ext" and v[1].endswith("()")):
+                out.add(v[1].strip(".()"))
+                for x in v[2]:
+                    calls(x, out)
+            elif v[0] == "list":
+                for x in v[1]:
+                    calls(x, out)
+        return out
+    INPUTS = {"prekeyA", "prekeyB", "signedprekey", "manager"}
+    f = ent[1].fields
+    ident = f.get("identityKey")
+    ok = ident is not None and leaves(ident) & INPUTS == {"manager"} and {"identity", "getPublicKey"} <= calls(ident)
+    ctx.check("C14.bundle", ok, w, "identity key", "the upload must carry the account's own identity public key (found a value built from %s through %s)" % (sorted(leaves(ident) & INPUTS) if ident else None, sorted(calls(ident) - {"adjustArray", "item", "slice"})[:6] if ident else None), "identity <- manager.identity public key")
+    stup = f.get("signedPreKey")
+    items = stup[1] if stup is not None and stup[0] == "list" and len(stup[1]) == 3 else None
+    ok3 = items is not None and all(leaves(x) & INPUTS == {"signedprekey"} for x in items) and "getId" in calls(items[0]) and "getPublicKey" in calls(items[1]) and "getSignature" in calls(items[2]) \
+        and "getSignature" not in calls(items[1]) and "getPublicKey" not in calls(items[2])
+    ctx.check("C14.bundle", ok3, w, "signed prekey triple", "id, public key and signature of the signed prekey must come from one and the same record (the signature would not verify otherwise); found %s" % ([sorted(leaves(x) & INPUTS) for x in items] if items else show(stup)[:60] if stup else None), "(id, key, signature) of one record")
+    reg = f.get("registration")
+    ctx.check("C14.bundle", reg is not None and leaves(reg) & INPUTS == {"manager"} and "registration_id" in calls(reg), w, "registration id", "the upload must carry the account's registration id", "registration id <- manager")
+    # one-time keys: id -> public key of the same key, every key offered
+    dv = f.get("preKeys")
+    okd, seen = False, set()
+    if dv is not None and dv[0] == "dict" and not (len(dv) > 2 and dv[2]):
+        okd = True
+        for k_, v_ in dv[1].items():
+            if not (isinstance(k_, tuple) and k_ and k_[0] == "dyn" and v_[0] == "list" and len(v_[1]) == 2):
+                okd = False
+                continue
+            kk, vv = v_[1]
+            lk, lv = leaves(kk) & INPUTS, leaves(vv) & INPUTS
+            if len(lk) != 1 or lk != lv or not lk <= {"prekeyA", "prekeyB"} or "getId" not in calls(kk) or "getPublicKey" not in calls(vv):
+                okd = False
+            seen |= lk
+        okd = okd and seen == {"prekeyA", "prekeyB"}
+    ctx.check("C14.bundle", okd, w, "one-time keys map id -> key", "every offered key must appear once, its id mapped to the public key of the same prekey (entries built from %s)" % sorted(seen), "id -> public key of the same key, both keys offered")
     # id / array adjusters: 3-byte big-endian ids
     # evaluated at every byte-length boundary of the id range (the function is piecewise in the byte length of the id)
     import binascii as _ba
@@ -503,6 +516,9 @@ def rule_login(ctx):
                 call("on_connected", [("obj", _event_obj(repo))])
                 call("onAuthed", [authed_event(passive)])
                 n_first = len(flushed)
+                # what the layer still holds once the handler has returned: the list handed to the upload (its result
+                # callback keeps it) must by then be the upload's alone - a copy, or the layer has let go of it
+                lists_after = [id(v[1]) for v in layer[1].fields.values() if isinstance(v, tuple) and v and v[0] == "list"]
                 call("onAuthed", [authed_event(True)])
             except _Raise as r:
                 ctx.undecided("C14.login", w("onAuthed"), "onAuthed", "raised %s" % r.text)
@@ -513,7 +529,7 @@ def rule_login(ctx):
             if want and flushed:
                 a, kw, lists = flushed[0]
                 lst = a[1] if len(a) > 1 else kw.get("prekeys")
-                copy_ok = lst is not None and lst[0] == "list" and id(lst[1]) not in lists and lst[1] == K
+                copy_ok = lst is not None and lst[0] == "list" and id(lst[1]) not in lists_after and lst[1] == K
                 reboot = kw.get("reboot_connection") == ("c", True) or (len(a) > 2 and a[2] == ("c", True))
                 cleared = len(flushed) == 1            # the second passive login of the same layer finds nothing left to flush
                 okf = okf and copy_ok and reboot and cleared
@@ -523,7 +539,7 @@ def rule_login(ctx):
                 okf = okf and len(flushed) == 1
                 detail = "kept for the next passive login=%s" % (len(flushed) == 1)
             ctx.check("C14.login", okf, w("onAuthed"), "authed passive=%s unsent=%s" % (passive, unsent),
-                      "unsent keys must be flushed exactly on a passive login, handed over by copy with the reboot flag, and the list cleared (%d flush call(s) on this login; %s)" % (n_first, detail), "flushed" if want else "nothing flushed")
+                      "unsent keys must be flushed exactly on a passive login, handed over (a list the layer no longer holds afterwards, contents intact) with the reboot flag, and the layer's list cleared (%d flush call(s) on this login; %s)" % (n_first, detail), "flushed" if want else "nothing flushed")
     # first upload confirmed -> disconnect requested; the disconnect that follows switches passive off and reconnects, once
     def disc_effects(effs):
         sp = [e for e in effs if e[0] == "SETPROP" and e[1] == ("c", PASSIVE)]
